@@ -364,6 +364,8 @@ pub struct ShardArgs {
     pub findings_path: String,
     pub per_run_log: Option<String>,
     pub max_secs: Option<f64>,
+    /// run indices the supervisor found to be outside the property's proviso (memory guard): skipped
+    pub skip: Vec<u64>,
 }
 
 pub fn run_seed(base_seed: u64, i: u64) -> u64 {
@@ -401,6 +403,10 @@ pub fn shard<E: Engine>(a: &ShardArgs) -> Json {
                 stopped_early = true;
                 break;
             }
+        }
+        if a.skip.contains(&i) {
+            i += 1;
+            continue;
         }
         let seed = run_seed(a.base_seed, i);
         // marker first: if generation itself dies the supervisor still knows the seed
